@@ -55,6 +55,8 @@ func (exec *execCtx) processV2Last(lastID oid.ID) {
 	}
 
 	if ok := exec.writeCollectedHeader(); ok {
+		// the chain is walked back from the very end of the payload
+		exec.curOff = exec.collectedHeader.PayloadSize()
 		exec.overtakePayloadInReverse(lastID)
 	}
 }
